@@ -79,7 +79,7 @@ def body_kernel(H, case):
 
         out = arr.empty((ne, 2), dtype=float)
         uninit = [str(v.re) for v in out.data.ravel()]
-        scr.get_A_induced_numba.py_func(Jx, areas, sites, cent, out)
+        getattr(scr.get_A_induced_numba, "py_func", scr.get_A_induced_numba)(Jx, areas, sites, cent, out)
     else:
         out = np.full((ne, 2), np.nan)
         scr.get_A_induced_numba(np.ascontiguousarray(Jx), areas, np.ascontiguousarray(sites), np.ascontiguousarray(cent), out)
